@@ -35,3 +35,22 @@ PROPS["C05"] = dict(
          "box; non-trivial = word != 0 / shape with 0 < nele < norb / table containing a negative sign; distinct by "
          "(kind, shape, indices)",
 )
+
+PROPS["C01"] = dict(
+    level="proof",
+    technique="Lean 4 theorems (CAR for the Spec ladder; one embedding iota intertwines FQE's determinant-level "
+              "ladder step and every operator string with the Jordan-Wigner Spec) + exact Gaussian-integer "
+              "correspondence of apply() for every Hamiltonian class with the Lean Spec driver on both code paths",
+    text="The sign convention is proved to be one convention: for every operator string (any length/order), every "
+         "determinant and both spins, FQE's kernel sign rule re-expressed through the single embedding iota equals the "
+         "Jordan-Wigner Spec action (C01_iota_term), and Spec satisfies the CAR. The dense/diagonal/sparse routes of "
+         "the real library are compared exactly (integer data, no tolerance) with the Spec driver over all "
+         "Hamiltonian classes x symmetry modes x e0.",
+    note="Lean kernel; the tensor-folding identities of the dense routes and the gathering parity of the sparse route "
+         "are not yet theorems: they are carried by the exact correspondence (norb<=3 quick, <=4 thorough). "
+         "Spin-orbital tensors are generated in the library's documented placement (spin-sorted, pair-symmetrised); "
+         "number-broken wavefunctions are exercised in C09/C06 only.",
+    design_ref="DESIGN.md §5 C01",
+    rule="cases = random (Hamiltonian class, wavefunction kind, norb, e0, tensor/operator, state); non-trivial = the exact "
+         "result has a negative or non-real amplitude; distinct by (class, wavefunction kind, norb, case index)",
+)
